@@ -614,6 +614,23 @@ def _read_byte_local(body, du, rt):
     return None
 
 
+def _copy_of(du, l, target):
+    """Is local `l` a plain copy (through single-definition temporaries and single-definition bindings, e.g. the
+    parameter of an inlined helper) of local `target`?"""
+    body = du.body
+    for _ in range(12):
+        if l == target:
+            return True
+        d = du.single_def(l)
+        if d is None or d[1] == 't' or d[2]['k'] != 'assign' or d[2]['rv']['k'] != 'use':
+            return False
+        p = Q.operand_place(d[2]['rv']['o'])
+        if p is None or not Q.is_plain(p):
+            return False
+        l = p['l']
+    return False
+
+
 def _zero_count_edges(F, body, du):
     """Switch edges taken exactly when the count returned by Read::read is 0 (`Ok(0)` pattern, `count == 0`, `count != 0` false)."""
     def pred(org, lab):
@@ -645,7 +662,7 @@ def _newline_edges(F, body, du, byte_local):
         locs = [Q.operand_local(o) for o in ops if 'c' not in o]
         if len(consts) != 1 or not str(consts[0]['c']).startswith('10_u8'):
             return False
-        if not locs or locs[0] is None or _base_local(du, locs[0]) != byte_local:
+        if not locs or locs[0] is None or not _copy_of(du, locs[0], byte_local):
             return False
         return lab[1] is (org['rv']['op'] == 'Eq')
     for b, tgt, lab, org in _switch_edges(F, body, du, pred):
@@ -655,7 +672,7 @@ def _newline_edges(F, body, du, byte_local):
         if t['k'] != 'switch' or t.get('dty') != 'u8':
             continue
         l = Q.operand_local(t['d'])
-        if l is None or _base_local(du, l) != byte_local:
+        if l is None or not _copy_of(du, l, byte_local):
             continue
         others = {x for v, x in t['ts'] if v != 10} | {t['else']}
         for v, tgt in t['ts']:
@@ -713,7 +730,10 @@ def r7(cx):
         for b, j, s in body.stmts():
             if s['k'] == 'assign' and s['rv']['k'] == 'agg' and s['rv'].get('ak') == 'closure' and inner.get(s['rv'].get('def')):
                 decode.append((b, s, 'closure calling ' + inner[s['rv']['def']][0]))
-        oks = [(b, s) for b, j, s in Q.find_aggregates(body, 'core::result::Result', 'Ok')]
+        # Ok(line): the Ok value written to the return place, or any Ok(..) whose payload is a String
+        oks = [(b, s) for b, j, s in Q.find_aggregates(body, 'core::result::Result', 'Ok')
+               if s['lhs']['l'] == 0 or any('alloc::string::String' in str(body.locals[Q.operand_local(o)].get('ty'))
+                                            for o in s['rv']['ops'] if Q.operand_local(o) is not None)]
         cx.require(decode, '%s: no UTF-8 conversion (String::from_utf8 / from_utf8_lossy / str::from_utf8 ...) is visible in the reader: '
                    'how the bytes of a line become text can not be decided (review)' % root)
         goals = {b for b, _, _ in decode} | {b for b, _ in oks}
